@@ -1,6 +1,7 @@
 package main
 
 import (
+	"runtime"
 	"bytes"
 	"encoding/hex"
 	"errors"
@@ -189,6 +190,9 @@ func takeFakeViolations() []string {
 type busyFlag struct{ n atomic.Int32 }
 
 func (b *busyFlag) enter(what string) func() {
+	// give other goroutines a chance between the steps of one use: an object that is (wrongly) held by
+	// two RPCs at once is then actually used by both in turn, also when few processors are available
+	runtime.Gosched()
 	if b.n.Add(1) != 1 {
 		fakeViolation(what + "-entered-concurrently")
 	}
